@@ -45,13 +45,13 @@ CLAIMED = {
                      "scipy.integrate.ode / odeint written from scipy's interface (exact flow of a test problem, state buffer "
                      "updated in place, evaluators called with the library's argument order) over all grid forms x "
                      'includeOrigin x full_output x methods x eigenvalue schedules x integer/float x0; func/jac pairing and '
-                     'parameter-name agreement at the remaining call sites; shape inference of the jacobian evaluator; 430 histories [solve, assign '
-                     'initial state / time / values / parameters (real setters interpreted), solve again] on one model object'),
+                     'parameter-name agreement at the remaining call sites; shape inference of the jacobian evaluator; about 800 histories [solve, assign '
+                     'initial state / time / values / parameters in several forms (real setters interpreted), solve again] on one model object; sibling agreement of the internal step budget configured for odeint and scipy.integrate.ode'),
         "level": ("Decides the repo-owned half of 'one row per requested time, in order, origin first, each row the solution "
                      "at its own time': with an exact model integrator the rows must equal the exact flow at the requested "
                      'times (so buffer aliasing, dropped/duplicated/shifted rows, restarts from the wrong time, dtype '
                      "truncation and wrong grids all show), integrators are set up with existing scipy names, the caller's "
-                     "functions, tolerances and step budget, a failed step raises; for all histories up to the stated length a solve returns the solution of the model as it stands (no stale stored result). Does not decide that scipy's integrators are "
+                     "functions, tolerances and step budget, a failed step raises; for all histories up to the stated length a solve returns the solution of the model as it stands (no stale stored result), and all entry points allow their library integrator the same number of internal steps per output interval. Does not decide that scipy's integrators are "
                      'accurate.'),
         "note": _TB,
     },
@@ -63,7 +63,8 @@ CLAIMED = {
                      'compared entry by entry, as polynomial identities in the rate and magnitude symbols, with V, rates, ode = '
                      'V*rates + explicit terms, reactant matrix; compileExprAndFormat interpreted for every (shape, output '
                      'type, back-end); every legacy route (add_transition / add_birth_death / add_event) interpreted into the event list the builders read; '
-                     'role sequences of symbol/value lists; namespace rule; shape inference'),
+                     'checkEquation / _addDerivedParam interpreted (exec, eval and formatted source text reconstructed; polynomial substitution) on derived parameters defined through others; '
+                     'argument assembly interpreted; namespace rule; shape inference'),
         "level": ('Decides that each builder returns exactly the matrices the property defines on every enumerated '
                      'definition class (any rewriting that computes the same matrices is accepted), that symbols and values '
                      'share the order (states,t,params) with values placed by name, that derived parameters are substituted for '
@@ -210,12 +211,12 @@ CLAIMED = {
         "note": _TB,
     },
     "C07": {
-        "technique": "static analysis: interpretation of BaseLoss's column-selection and chain-rule routines over arrays of "
-                     "symbols for 105 orders of target parameters / observed states / target states; argument binding of the "
-                     "sensitivity integrations",
+        "technique": "static analysis by abstract interpretation of the syntax tree (nothing of /repo is imported or run): BaseLoss's column-selection and chain-rule routines interpreted over arrays of "
+                     "symbols (numpy view semantics modelled) for 105 orders of target parameters / observed states / target states; argument binding of the "
+                     "sensitivity integrations; BaseLoss.__init__ interpreted on concrete integer- and real-typed observation times for the solver grid of the derivative paths",
         "level": "Decides that gradient component o is the chain rule over the sensitivity columns of free variable o, in the "
                  "order the free variables were supplied, parameters first then initial values, evaluated on the same "
-                 "integration; and that the integrations start from zeros/identity with matching (func, jac). Together with C13 "
+                 "integration; that the integrations start from zeros/identity with matching (func, jac), and that they run over the caller's start time and observation times (the trajectory the cost is computed on). Together with C13 "
                  "(layout of the integrated system) and C14 (diff_loss) this is the repo-owned part of 'gradient = derivative of "
                  "cost'; the integrator's numerics are not decided.",
         "note": _TB,
@@ -243,11 +244,11 @@ CLAIMED = {
         "note": _TB + "; reference table sa/specs/densities.py",
     },
     "C20": {
-        "technique": "static analysis: interpretation of sens_to_jtj, eval_forwardforward and BaseLoss.hessian over arrays of "
-                     "symbols; entry-wise polynomial identity against the Gram form and the second-order variational equations",
+        "technique": "static analysis by abstract interpretation of the syntax tree (nothing of /repo is imported or run): sens_to_jtj, eval_forwardforward and BaseLoss.hessian interpreted over arrays of "
+                     "symbols with numpy's view semantics (in-place weighting through reshaped views), unit and symbolic observation weights, full_output False and True; entry-wise polynomial identity against the Gram form and the second-order variational equations",
         "level": "Decides that jtj is the Gram matrix of the weighted target sensitivities (hence symmetric PSD), that the "
                  "terms of the second-order system that are present are right, and that hessian = 2 JTJ + sum diff_loss * "
-                 "second-order sensitivities. One known finding: the mixed terms of the second-order system are missing.",
+                 "second-order sensitivities at the theta handed in, independent of full_output, over the caller's time grid. One known finding: the mixed terms of the second-order system are missing.",
         "note": _TB,
     },
 }
